@@ -120,3 +120,31 @@ Theorem C15_source_constants :
   std_cw CBlue = Some gen_std_cw_blue /\ gen_rgb_defaults_only_for_three_bands = true /\ gen_over_tolerance_is_strict_any = true /\
   gen_rel_dist_by_source = true.
 Proof. exact tie_band_constants. Qed.
+
+(* ---- tie to the source (gen/BandsGen.v, regenerated on every run by translate/bands.py from the PATH CONDITIONS of the raise statements, of the
+        greedy call and of the two fills in the current _match_pair_bands): its decision skeleton is that of Bands.Match.match_core - fewer
+        reference bands is an error unless forced; wavelengths are used iff both sides have some and matching is not forced; a matched pair over
+        the tolerance is an error on that path; remaining bands are filled in file order iff the counts agree, truncated iff forced, and it is an
+        error otherwise *)
+From HV Require Import Tie.BandsTie.
+From HVgen Require Import BandsGen.
+Theorem C15_source_decisions n m force sany rany over short :
+  BandsGen.translation_failed = false /\ gen_info_ok = true /\
+  gen_raises_fewer n m force sany rany over short = (Nat.ltb m n && negb force) /\
+  gen_wavelength_path n m force sany rany over short = ((sany && rany) && negb force) /\
+  gen_raises_dist n m force sany rany over short = (((sany && rany) && negb force) && over) /\
+  gen_raises_unmatched n m force sany rany over short = (short && negb (Nat.eqb n m) && negb force) /\
+  gen_fill_file_order n m force sany rany over short = (short && Nat.eqb n m) /\
+  gen_fill_truncated n m force sany rany over short = (short && negb (Nat.eqb n m) && force).
+Proof. split; [exact tie_bands_translated|]. exact (tie_band_decisions n m force sany rany over short). Qed.
+Theorem C15_model_fewer_iff D ltbD overD sb rb wl_ok dm force :
+  match_core D ltbD overD sb rb wl_ok dm force = inl EFewer <-> Nat.ltb (length rb) (length sb) && negb force = true.
+Proof. exact (model_fewer_iff D ltbD overD sb rb wl_ok dm force). Qed.
+Theorem C15_model_dist_iff D ltbD overD sb rb wl_ok dm force :
+  match_core D ltbD overD sb rb wl_ok dm force = inl EDist <->
+  (Nat.ltb (length rb) (length sb) && negb force = false /\
+   existsb (fun p => match dm (fst p) (snd p) with Some d => overD d | None => false end)
+           (if wl_ok && negb force then greedy D ltbD dm (length sb) (seq 0 (length sb)) (seq 0 (length rb)) else []) = true).
+Proof. exact (model_dist_iff D ltbD overD sb rb wl_ok dm force). Qed.
+Print Assumptions C15_source_decisions.
+Print Assumptions C15_model_dist_iff.
